@@ -22,12 +22,40 @@ class C10(ValsetBase):
     driver_test = "TestDriveSnap"
     trace_cfg = "ValsetTrace"
     mc = [("Valset_mc", "Valset_snap", ("quick", "thorough")), ("Valset_mc", "Valset_snap_big", ("thorough",))]
-    gens = [Gen("ValsetGen", "ValsetGen_proj_cover", "bfs", tiers=("quick", "thorough"), timeout=600),
-            Gen("ValsetGen", "ValsetGen_snap_cover", "bfs", tiers=("quick", "thorough"), timeout=600),
-            Gen("ValsetGen", "ValsetGen_snap_sim", "simulate", num=60, depth=14, tiers=("quick",)),
-            Gen("ValsetGen", "ValsetGen_snap_sim", "simulate", num=400, depth=14, tiers=("thorough",))]
-    quick_cap = 5000
-    thorough_cap = 15000
+    # per-generator caps keep the hand-written regression shapes of extra_histories() out of the sampling
+    gens = [Gen("ValsetGen", "ValsetGen_proj_cover", "bfs", tiers=("quick",), timeout=600, cap=1400),
+            Gen("ValsetGen", "ValsetGen_snap_cover", "bfs", tiers=("quick",), timeout=600, cap=1800),
+            Gen("ValsetGen", "ValsetGen_snap_sim", "simulate", num=60, depth=14, tiers=("quick",), cap=1000),
+            # account records change AFTER snapshots were built: balance reports, rotated keys, traits
+            Gen("ValsetGen", "ValsetGen_touch_cover", "bfs", tiers=("quick",), timeout=600, cap=350),
+            # builds that store a snapshot with one / no validator: chain nobody is registered on, everybody jailed or deregistered
+            Gen("ValsetGen", "ValsetGen_shrink_cover", "bfs", tiers=("quick",), timeout=600, cap=450),
+            Gen("ValsetGen", "ValsetGen_proj_cover", "bfs", tiers=("thorough",), timeout=600),
+            Gen("ValsetGen", "ValsetGen_snap_cover", "bfs", tiers=("thorough",), timeout=600, cap=6000),
+            Gen("ValsetGen", "ValsetGen_touch_cover", "bfs", tiers=("thorough",), timeout=600),
+            Gen("ValsetGen", "ValsetGen_shrink_cover", "bfs", tiers=("thorough",), timeout=600),
+            Gen("ValsetGen", "ValsetGen_snap_sim", "simulate", num=400, depth=14, tiers=("thorough",), cap=5000)]
+    quick_cap = 8000
+    thorough_cap = 30000
+
+    def extra_histories(self, tier):
+        st = lambda act, **a: {"act": act, "args": a}
+        one = [1, 1, 1, 1]
+        return [
+            # a chain nobody has an account on is activated: the next build stores an EMPTY snapshot with the highest id
+            [st("InitS", stakes=one, reg="first"), st("Activate", c=2), st("Build", x=0), st("Publish", force=True), st("Build", x=0),
+             st("Register", v=1, cs=[1, 2]), st("Build", x=0)],
+            # everybody jailed
+            [st("InitS", stakes=one, reg="all"), st("Activate", c=1), st("JailF", v=1), st("JailF", v=2), st("JailF", v=3), st("Build", x=0),
+             st("StakingEB", dt=1), st("Build", x=0), st("Publish", force=True)],
+            # everybody deregistered from the active chain
+            [st("InitS", stakes=[1, 2, 3, 7], reg="all"), st("Activate", c=2), st("Register", v=2, cs=[1]), st("Register", v=3, cs=[]),
+             st("Register", v=4, cs=[1]), st("Build", x=0), st("SetOnChain", id=2, c=2), st("Build", x=0)],
+            # balance reports, key rotation and traits after snapshots were built and went live
+            [st("InitS", stakes=one, reg="all"), st("SetBalance", v=1, c=1, bal=7), st("Activate", c=1), st("Rotate", v=2, mode="key"), st("Build", x=0),
+             st("SetOnChain", id=2, c=1), st("SetBalance", v=2, c=1, bal=8), st("Rotate", v=1, mode="trait"), st("SetBalance", v=1, c=2, bal=9),
+             st("Build", x=0), st("Rotate", v=1, mode="key"), st("SetBalance", v=3, c=2, bal=3), st("Publish", force=True)],
+        ]
     samples = {"quick": 150, "thorough": 600}
     assumptions = [
         "E1 keeper environment: real staking, slashing, valset, evm, consensus, treasury and metrix keepers; 4 validators, MaxValidators 3, two remote chains",
